@@ -276,9 +276,9 @@ func boolSpaces(tier string) []*BoolSpace {
 	for _, e := range []enum.Embed{enum.Eax, enum.Ean} {
 		out = append(out, spPair("B4", e, 4, 3, 3, 6))
 	}
-	out = append(out, spThree(enum.Eax, 5, 6), spThree(enum.Esh, 7, 6), spThree(enum.Ean, 7, 6), spThree(enum.Eax, 3, 7),
-		spThreeRoles(enum.Eax, 5, 1, 6), spThreeRoles(enum.Eax, 5, 3, 6), spThreeRoles(enum.Ean, 7, 1, 6), spThreeRoles(enum.Ean, 7, 3, 6), spThreeRoles(enum.Esh, 7, 1, 6), spThreeRoles(enum.Esh, 7, 3, 6))
-	out = append(out, spShapes(enum.Eax, 5, 6), spTwoLevel(1, 1, 6))
+	out = append(out, spThree(enum.Eax, 5, 6), spThree(enum.Esh, 7, 6), spThree(enum.Ean, 7, 6),
+		spThreeRoles(enum.Eax, 7, 1, 6), spThreeRoles(enum.Eax, 7, 3, 6), spThreeRoles(enum.Ean, 10, 1, 6), spThreeRoles(enum.Ean, 10, 3, 6), spThreeRoles(enum.Esh, 10, 1, 6), spThreeRoles(enum.Esh, 10, 3, 6))
+	out = append(out, spShapes(enum.Eax, 5, 6), spTwoLevel(3, 1, 6))
 	return out
 }
 
